@@ -25,11 +25,12 @@ ASSUMPTIONS = [
     "no fault or schedule dimension: the simulator supplies the reference agent and the exact twin run",
     "OrderedDict counts as dict; PyVarBind (a tuple subclass) and BulkResult are the documented containers",
 ]
-PROBES = ["timeticks", "ipaddress", "oid_value", "counter64", "opaque", "exception_marker", "bulkget_keys", "table_rows",
+PROBES = ["wrapper_fetched_another_table_before", "timeticks", "ipaddress", "oid_value", "counter64", "opaque", "exception_marker", "bulkget_keys", "table_rows",
           "multiset_keys", "v1", "v3", "sparse_table", "set_confirmed_differently", "stalling_agent_walk", "reordered_set_response"]
 shrink_lists = [("mib",)]
 OPS = ["get", "getnext", "multiget", "set", "multiset", "walk", "multiwalk", "bulkwalk", "bulkget", "table", "bulktable"]
 BASE = (1, 3, 6, 1, 2, 1, 7)
+BASE2 = (1, 3, 6, 1, 2, 1, 8)
 ALLOWED = (str, int, bytes, timedelta, IPv4Address, type(None), list, tuple, dict)
 
 
@@ -89,11 +90,23 @@ def plan_for(tier: str, seed: int, i: int) -> dict:
     #  - "stall": one GETNEXT answer repeats the requested OID (walks: strict mode raises, lenient mode ends the walk)
     #  - "reorder": the bindings of a SET response come back in another order than requested
     quirk = rng.choice([None, None, None, "stall", "reorder"])
+    # history: the same wrapper object has fetched ANOTHER table before (same column numbers, other syntaxes)
+    hrng = rng_for(seed, ID, tier + ":pre", i)
+    pre = None
+    if hrng.random() < 0.3:
+        for c in range(1, 4):
+            for r in range(1, hrng.randrange(2, 4)):
+                mib[BASE2 + (1, c, r)] = gen.gen_value(hrng, kinds=kinds, max_str=30)
+        pk = hrng.choice(["table", "walk"] + ([] if version == "v1" else ["bulktable", "bulkwalk"]))
+        pre = {"table": {"op": "table", "oid": BASE2 + (1,)}, "bulktable": {"op": "bulktable", "oid": BASE2, "bulk": 3},
+               "walk": {"op": "walk", "root": BASE2 + (1, 1)}, "bulkwalk": {"op": "bulkwalk", "roots": [BASE2 + (1, 2)], "bulk": 3}}[pk]
     return {"prop": ID, "proto": proto, "mib": sorted(mib.items()), "op": op, "normalise": rng.random() < 0.5,
-            "quirk": quirk}
+            "quirk": quirk, "pre": pre}
 
 
 def simplify(plan: dict):
+    if plan.get("pre"):
+        p = dict(plan); p["pre"] = None; yield p
     if plan.get("quirk"):
         p = dict(plan); p["quirk"] = None; yield p
     if plan["proto"]["version"] != "v2c":
@@ -196,6 +209,11 @@ def _run(plan: dict, pythonic: bool) -> dict:
     res = exc = None
 
     async def one() -> Any:
+        if plan.get("pre"):
+            try:
+                await (scen.do_pyop(client, plan["pre"]) if pythonic else scen.do_op(client, plan["pre"]))
+            except Exception:  # noqa: BLE001
+                pass             # not under test here
         return await (scen.do_pyop(client, plan["op"]) if pythonic else scen.do_op(client, plan["op"]))
     try:
         res = w.run(one())
@@ -239,6 +257,7 @@ def execute(plan: dict) -> dict:
                     str(got)[:300], str(want)[:300]))
         kinds_seen = _kinds(b["res"])
     probes = {
+        "wrapper_fetched_another_table_before": int(bool(plan.get("pre"))),
         "timeticks": int("tt" in kinds_seen), "ipaddress": int("ip" in kinds_seen), "oid_value": int("oid" in kinds_seen),
         "counter64": int("c64" in kinds_seen), "opaque": int("opaque" in kinds_seen),
         "exception_marker": int(any(k in kinds_seen for k in ("nso", "nsi", "eom"))),
